@@ -210,3 +210,42 @@ func HandleAlphabet(l int, appendMode bool) []ops.Op {
 	a = append(a, ops.Op{K: "h.sync"}, ops.Op{K: "h.stat"})
 	return a
 }
+
+// FaultAlphabet: afero calls + handle calls used by the fault enumerator (C10) and the handle scenario of C01.
+func FaultAlphabet(full bool) []ops.Op {
+	a := []ops.Op{
+		{K: "mkdir", P: "/a"},
+		{K: "put", P: "/f", C: "T1100"},
+		{K: "put", P: "/a/f", C: "xy"},
+		{K: "put", P: "/f", C: ""},
+		{K: "remove", P: "/f"},
+		{K: "remove", P: "/nope"},
+		{K: "removeall", P: "/a"},
+		{K: "removeall", P: "/nope"},
+		{K: "rename", P: "/f", Q: "/a/f"},
+		{K: "rename", P: "/nope", Q: "/x"},
+		{K: "rename", P: "/f", Q: "/nodir/f"},
+		{K: "chmod", P: "/f", N: 0o600},
+		{K: "mkdirall", P: "/a/b/c"},
+		{K: "read", P: "/f"},
+		{K: "list", P: "/"},
+		{K: "stat", P: "/f"},
+		{K: "hopen", P: "/f", N: os.O_RDONLY, H: 0},
+		{K: "hopen", P: "/f", N: os.O_RDWR, H: 1},
+		{K: "hread", H: 0, N: 3},
+		{K: "hreadall", H: 0},
+		{K: "hwrite", H: 1, C: "Q"},
+		{K: "hsync", H: 1},
+		{K: "hclose", H: 0},
+		{K: "hclose", H: 1},
+	}
+	if full {
+		a = append(a,
+			ops.Op{K: "chown", P: "/f"}, ops.Op{K: "chtimes", P: "/a"}, ops.Op{K: "symlink", P: "/f", Q: "/l"},
+			ops.Op{K: "hopen", P: "/f", N: os.O_RDWR | os.O_CREATE | os.O_TRUNC, H: 1},
+			ops.Op{K: "hread", H: 1, N: 3},
+			ops.Op{K: "hseek", H: 0, N: 2},
+		)
+	}
+	return a
+}
